@@ -24,6 +24,8 @@ FooDefs(cs) == {D(o, "foo", FALSE, v, "Integer", "def", FALSE) : o \in cs, v \in
                \* `class << self ; private ; def foo` - written FIRST in the class body: the section must end with the block
                \cup {D(o, "foo", TRUE, "private", "Integer", "sclass", FALSE) : o \in cs}
 BarDefs(cs) == {{}} \cup {{D(o, "bar", FALSE, v, "String", "def", FALSE)} : o \in cs, v \in {"public", "private"}}
+               \* attr_accessor :bar  with  @bar = "s"  assigned in a method of the same class
+               \cup {{D(o, "bar", FALSE, "public", "String", "attr", FALSE)} : o \in cs}
 
 MCInit ==
     \E sh \in Shapes :
